@@ -2,7 +2,7 @@
 from fractions import Fraction
 from .. import nf, dims, bind
 from ..nf import Poly, Tup, Const, Slice, NONE, TRUE, FALSE
-from ..model import AnalysisError
+from ..model import AnalysisError, dotted
 from ..rules import run as analyse, returns, fmt, is_app, S, C, pair, root_sym, none_state, conds_str
 from .prop_flow import wf_attr, WF
 
@@ -558,6 +558,25 @@ def run(chk, repo, tier):
     n0, n1 = nf.index(xs, C(0)), nf.index(xs, C(1))
     by_hand = [(n0 * n1).pow(Fraction(-1, 2)), (nf.attr(S('x'), 'size')).pow(Fraction(-1, 2)),
                nf.app('prod', xs).pow(Fraction(-1, 2))]
+    na_ = norm.single_atom() if isinstance(norm, Poly) else None
+    if na_ is not None and na_[0] == 'sym' and na_[1] in f2.param_names():
+        # the normalisation is a parameter of the helper: what its callers hand over (or its default) decides
+        import ast as _ast
+        vals = set()
+        dflt = {p_: d_ for p_, d_, _k in f2.params()}.get(na_[1])
+        for g_ in repo.all_functions():
+            if g_.module.name != f2.module.name:
+                continue
+            for node in _ast.walk(g_.node):
+                if isinstance(node, _ast.Call) and (dotted(node.func) or '').split('.')[-1] == f2.name:
+                    kw = next((k.value for k in node.keywords if k.arg == na_[1]), None)
+                    pos_i = f2.param_names().index(na_[1])
+                    given = kw if kw is not None else (node.args[pos_i] if len(node.args) > pos_i else dflt)
+                    vals.add(given.value if isinstance(given, _ast.Constant) else '?')
+        if vals == {'ortho'}:
+            norm = Const('ortho')
+        elif vals and '?' not in vals and vals <= {None, 'backward'}:
+            norm = None
     if scale is None:
         unitary, detu = None, f'norm={norm!r}; overall factor not isolated in {fmt(r)[:120]}'
     elif norm == Const('ortho'):
